@@ -13,6 +13,7 @@ class Ref(Expression):
     def __init__(self, name):
         self.name = name
         self.is_local = False
+        self.is_super = False
         self._resolved = None
 
     @property
@@ -23,7 +24,7 @@ class Ref(Expression):
         return self.name
 
     def _compile(self, out, flags):
-        if flags.uses_context and not self.is_local:
+        if flags.uses_context and not self.is_local and not self.is_super:
             func = Code(f'_ctx.{self.resolved}')
         else:
             func = Code(self.resolved)
